@@ -15,7 +15,9 @@ import (
 	rb39 "verifharness/ref/bip39"
 )
 
-func init() { core.Register(core.Check{ID: "C03", Level: "exploration", Run: runC03}) }
+func init() {
+	core.Register(core.Check{ID: "C03", Level: "exploration", Run: func(c *core.Ctx) { runC03(c); reentrancyPass(c, "C03") }})
+}
 
 // official BIP-39 word list files (bitcoin/bips bip-0039/*.txt), SHA-256
 var c03ListHash = map[string]string{
